@@ -463,6 +463,19 @@ func certStep(r *Run, fn *ssa.Function, pairs []laxPair) (map[string]string, *la
 	return d, pair, pc
 }
 
+// c11StoredEveryRound: once parseCertificate has run in a round of the loop, the
+// next round (the block that computes the index) is not reached without the store
+// ret[i] ← certificate: no round leaves its slot empty and goes on.
+func c11StoredEveryRound(r *Run, fn *ssa.Function, pc *ssa.Call, st *ssa.Store, index ssa.Value) bool {
+	in, ok := index.(ssa.Instruction)
+	if !ok || in.Block() == nil {
+		return false
+	}
+	r.Valuations++
+	reach := r.D.Walk(fn, Sigma{}, pc.Block(), map[*ssa.BasicBlock]bool{st.Block(): true})
+	return !reach.Blocks[in.Block()] || in.Block() == pc.Block()
+}
+
 func uniq(ss []string) []string {
 	var out []string
 	for i, s := range ss {
@@ -552,7 +565,8 @@ func c11Siblings(r *Run, pairs []laxPair) {
 							if ms, ok := sa.X.(*ssa.MakeSlice); ok && glob("len(*)", r.D.D(ms.Len)) {
 								if lc, ok := ms.Len.(*ssa.Call); ok && len(lc.Call.Args) == 1 && lc.Call.Args[0] == list {
 									for _, ret := range successReturns(many) {
-										if ret.(*ssa.Return).Results[0] == ssa.Value(ms) {
+										// (a φ whose other edges a repeated test rules out is the value itself)
+										if feasibleValue(ret.(*ssa.Return).Results[0]) == ssa.Value(ms) && c11StoredEveryRound(r, many, pcn, st, ia.Index) {
 											okres = true
 										}
 									}
@@ -563,7 +577,7 @@ func c11Siblings(r *Run, pairs []laxPair) {
 				}
 			}
 		}
-		r.Check("ParseCertificates:result-i-is-certificate-i", okres, r.Where(pcn), "ret[i] ← parseCertificate(v[i]) with len(ret) = len(v), and ret is what is returned")
+		r.Check("ParseCertificates:result-i-is-certificate-i", okres, r.Where(pcn), "ret[i] ← parseCertificate(v[i]) with len(ret) = len(v) in every round that goes on to the next, and ret is what is returned")
 	}
 	// (b) each certificate starts where the previous one ended
 	data := pn.strict.Call.Args[0]
